@@ -84,6 +84,51 @@ func RequiredBits(parent *Node, powLimitBits uint32) uint32 {
 	return Compact(t)
 }
 
+// RequiredBitsNet adds the test networks' exceptions (Bitcoin Core, pow.cpp,
+// fPowAllowMinDifficultyBlocks; testnet4: BIP94's retarget base):
+//   - not at a retarget boundary: a block stamped more than 20 minutes after its parent may (must,
+//     for the equality test) carry the limit; otherwise the bits of the last block that is at a
+//     boundary or does not carry the limit;
+//   - at a boundary the ordinary retarget applies whatever the timestamp; testnet4 takes as base the
+//     bits of the last block of the period that is at a boundary or does not carry the limit.
+func RequiredBitsNet(parent *Node, powLimitBits uint32, net int, blockTime uint32) uint32 {
+	if net == 0 || parent.Parent == nil {
+		return RequiredBits(parent, powLimitBits)
+	}
+	lastReal := func() *Node {
+		n := parent
+		for n.Parent != nil && n.Height%RetargetInterval != 0 && n.Bits == powLimitBits {
+			n = n.Parent
+		}
+		return n
+	}
+	if (parent.Height+1)%RetargetInterval != 0 {
+		if int64(blockTime) > int64(parent.Time)+2*600 {
+			return powLimitBits
+		}
+		return lastReal().Bits
+	}
+	if net != 4 {
+		return RequiredBits(parent, powLimitBits)
+	}
+	first := Ancestor(parent, parent.Height-(RetargetInterval-1))
+	span := int64(parent.Time) - int64(first.Time)
+	if span < TargetTimespan/4 {
+		span = TargetTimespan / 4
+	}
+	if span > TargetTimespan*4 {
+		span = TargetTimespan * 4
+	}
+	t := Target(lastReal().Bits)
+	t.Mul(t, big.NewInt(span))
+	t.Div(t, big.NewInt(TargetTimespan))
+	lim := Target(powLimitBits)
+	if t.Cmp(lim) > 0 {
+		t = lim
+	}
+	return Compact(t)
+}
+
 func HashLE(h [32]byte) *big.Int {
 	var be [32]byte
 	for i := range h {
@@ -194,7 +239,7 @@ func (m *Model) CheckBlock(parent *Node, b *reftx.Block, powLimitBits uint32, no
 	if !CheckPoW(b.Hash(), b.Bits, powLimitBits) {
 		return "high-hash"
 	}
-	if b.Bits != RequiredBits(parent, powLimitBits) {
+	if b.Bits != RequiredBitsNet(parent, powLimitBits, m.P.Net, b.Time) {
 		return "bad-diffbits"
 	}
 	mtp := MTP(parent)
